@@ -574,6 +574,31 @@ theorem deliverLast_node (w : World) (s : Session) (h : PacketHdr) (p : Bytes) (
   simp only [hn]
   simp
 
+@[simp] theorem groupDataCheck_node (w : World) (s : Session) (h : PlainHdr) :
+    (w.groupDataCheck s h).2.node = w.node := by
+  unfold World.groupDataCheck
+  split
+  · split
+    · split <;> rfl
+    · rfl
+  · rfl
+
+theorem deliverAt_node (w : World) (idx : Nat) (s : Session) (h : PacketHdr) (p : Bytes) :
+    (w.deliverAt idx s h p).2.node = w.node.set idx (s.postRecv h).2 := rfl
+
+theorem deliverAt_gstore (w : World) (idx : Nat) (s : Session) (h : PacketHdr) (p : Bytes) :
+    (w.deliverAt idx s h p).2.gstore = w.gstore := rfl
+
+theorem deliverAt_ok {w w' : World} {s : Session} {h h' : PacketHdr} {p p' : Bytes} {i idx : Nat} {nw : Bool}
+    (hd : w.deliverAt i s h p = (.ok idx nw h' p', w')) : h' = h ∧ p' = p ∧ idx = i := by
+  unfold World.deliverAt at hd
+  simp only [Prod.mk.injEq] at hd
+  obtain ⟨h1, _⟩ := hd
+  split at h1
+  · cases h1
+  · simp only [Outcome.ok.injEq] at h1
+    exact ⟨h1.2.2.1.symm, h1.2.2.2.symm, h1.1.symm⟩
+
 /-- the table after the group branch accepted a message: unchanged (duplicate counter / no room),
 or the new session appended — after the LRU idle session was evicted if the table was full -/
 theorem groupAccept_node (w : World) (now : Nat) (from_ : Addr) (c : Cand) (h : PacketHdr) (p : Bytes) :
@@ -618,10 +643,17 @@ theorem receive_shape (E : Env) (now : Nat) (w : World) (from_ : Addr) (dg : Byt
     cases ei : w.node[idx]? with
     | none => left; exact touch_node _ _ _ _
     | some s =>
-      right; left
-      refine ⟨idx, h, p, s, rfl, ei, ?_⟩
       simp only
-      split <;> simp
+      cases hc : ((w.touch now from_ dg).groupDataCheck s h.plain).1 with
+      | some x =>
+        left
+        simp only
+        rw [groupDataCheck_node, touch_node]
+      | none =>
+        right; left
+        refine ⟨idx, h, p, s, rfl, ei, ?_⟩
+        simp only
+        rw [deliverAt_node, groupDataCheck_node, touch_node]
   | newPlain h p =>
     simp only
     cases ha : (w.touch now from_ dg).add now { addr := from_, peerNode := h.plain.srcNode } with
@@ -644,25 +676,59 @@ theorem receive_shape (E : Env) (now : Nat) (w : World) (from_ : Addr) (dg : Byt
 theorem deliverLast_gstore (w : World) (s : Session) (h : PacketHdr) (p : Bytes) :
     (w.deliverLast s h p).2.gstore = w.gstore := rfl
 
+theorem groupDataCheck_gstore {w : World} {s : Session} {h : PlainHdr}
+    (hne : (w.groupDataCheck s h).2.gstore ≠ w.gstore) :
+    ∃ fab gid, s.mode = .group fab gid ∧ h.isGroup = true ∧ h.isControl = false ∧ otherGroup h gid = false := by
+  unfold World.groupDataCheck at hne
+  split at hne
+  · rename_i hc
+    simp only [Bool.and_eq_true, Bool.not_eq_true'] at hc
+    cases hm : s.mode with
+    | group fab gid =>
+      rw [hm] at hne
+      simp only at hne
+      cases ho : otherGroup h gid with
+      | true => rw [ho] at hne; exact absurd rfl hne
+      | false => exact ⟨fab, gid, rfl, hc.1, hc.2, ho⟩
+    | plain => rw [hm] at hne; exact absurd rfl hne
+    | pase => rw [hm] at hne; exact absurd rfl hne
+    | case => rw [hm] at hne; exact absurd rfl hne
+  · exact absurd rfl hne
+
 /-- **The group counter store is consulted only after a group message authenticated**: if a
-delivery changes the store, the datagram passed the group branch — it is authentic under a key the
-node holds for the addressed group. -/
+delivery changes the store, the datagram either passed the group branch — it is authentic under a
+key the node holds for the addressed group — or it is a group data message that is authentic for
+a live group session of its sender and addresses that session's group. -/
 theorem gstore_only_if_group_authentic {E : Env} {now : Nat} {w : World} {from_ : Addr} {dg : Bytes}
     (hb : BytesOK dg) (hne : (receive E now w from_ dg).2.gstore ≠ w.gstore) :
-    ∃ c h p f src, decodeStage E w.node from_ dg = .groupNew c h p ∧
-      GroupKeyFor E.fabs h.plain f c.gid c.key ∧ GroupAuthentic E.t c.key dg h.plain src := by
+    (∃ c h p f src, decodeStage E w.node from_ dg = .groupNew c h p ∧
+      GroupKeyFor E.fabs h.plain f c.gid c.key ∧ GroupAuthentic E.t c.key dg h.plain src) ∨
+    (∃ idx h p r fab gid, decodeStage E w.node from_ dg = .decoded idx h p ∧ w.node[idx]? = some r ∧
+      r.mode = .group fab gid ∧ h.plain.isGroup = true ∧ h.plain.isControl = false ∧
+      otherGroup h.plain gid = false ∧ AuthenticFor E.t r dg) := by
   cases e : decodeStage E w.node from_ dg with
   | groupNew c h p =>
     obtain ⟨f, src, hk, _, _, _, ha⟩ := group_accept_only_authentic hb e
-    exact ⟨c, h, p, f, src, rfl, hk, ha⟩
+    exact Or.inl ⟨c, h, p, f, src, rfl, hk, ha⟩
   | rej x hh => exact absurd (reject_preserves_state e).2.2 hne
   | decoded idx h p =>
-    exfalso; apply hne
-    unfold receive
-    simp only [touch_node, e]
-    split
-    · exact touch_gstore _ _ _ _
-    · split <;> exact touch_gstore _ _ _ _
+    right
+    unfold receive at hne
+    simp only [touch_node, e] at hne
+    cases ei : w.node[idx]? with
+    | none => rw [ei] at hne; exact absurd (touch_gstore _ _ _ _) hne
+    | some s =>
+      rw [ei] at hne
+      simp only at hne
+      have hg : ((w.touch now from_ dg).groupDataCheck s h.plain).2.gstore ≠ (w.touch now from_ dg).gstore := by
+        intro hx
+        apply hne
+        split
+        · simp only; rw [hx]; exact touch_gstore _ _ _ _
+        · rw [deliverAt_gstore, hx]; exact touch_gstore _ _ _ _
+      obtain ⟨fab, gid, hm, h1, h2, h3⟩ := groupDataCheck_gstore hg
+      have hr : s.isEncrypted = true := by simp [Session.isEncrypted, hm]
+      exact ⟨idx, h, p, s, fab, gid, rfl, ei, hm, h1, h2, h3, accept_only_authentic hb e ei hr⟩
   | newPlain h p =>
     exfalso; apply hne
     unfold receive
@@ -740,9 +806,8 @@ theorem handed_on_only_if_authentic {E : Env} {now : Nat} {w w' : World} {from_ 
       simp only at hrecv
       split at hrecv
       · simp at hrecv
-      · simp only [Prod.mk.injEq, Outcome.ok.injEq] at hrecv
-        obtain ⟨⟨h1, _, h3, h4⟩, _⟩ := hrecv
-        subst h1 h3 h4
+      · obtain ⟨h1, h2, h3⟩ := deliverAt_ok hrecv
+        subst h1 h2 h3
         left
         exact ⟨s, rfl, ei, fun hr => accept_only_authentic hb e ei hr⟩
   | newPlain hh pp =>
@@ -775,6 +840,33 @@ theorem handed_on_only_if_authentic {E : Env} {now : Nat} {w w' : World} {from_ 
     obtain ⟨h1, h2⟩ := this
     subst h1 h2
     exact ⟨c, f, src, rfl, hk, ha⟩
+
+/-- **A group data message matched to a live group session passes the same checks as one that
+creates a session**: it is handed on only if it addresses the session's group and its counter is
+new to the per-sender group counter store (no replay through the fresh window of an ephemeral
+session). -/
+theorem group_data_on_session_checked {E : Env} {now : Nat} {w w' : World} {from_ : Addr} {idx fab gid : Nat}
+    {dg p : Bytes} {h : PacketHdr} {nw : Bool} {s : Session}
+    (hst : decodeStage E w.node from_ dg = .decoded idx h p) (hs : w.node[idx]? = some s)
+    (hm : s.mode = .group fab gid) (hg : h.plain.isGroup = true) (hc : h.plain.isControl = false)
+    (hrecv : receive E now w from_ dg = (.ok idx nw h p, w')) :
+    otherGroup h.plain gid = false ∧ (w.gstore.postRecv fab (s.peerNode.getD 0) h.plain.ctr).2 = true := by
+  unfold receive at hrecv
+  simp only [touch_node, hst, hs] at hrecv
+  cases hcheck : ((w.touch now from_ dg).groupDataCheck s h.plain).1 with
+  | some x => rw [hcheck] at hrecv; simp at hrecv
+  | none =>
+    unfold World.groupDataCheck at hcheck
+    simp only [hg, hc, hm, Bool.not_false, Bool.and_self, if_true, touch_gstore] at hcheck
+    cases ho : otherGroup h.plain gid with
+    | true => rw [ho] at hcheck; simp at hcheck
+    | false =>
+      rw [ho] at hcheck
+      simp only [Bool.false_eq_true, if_false] at hcheck
+      refine ⟨rfl, ?_⟩
+      cases hf : (w.gstore.postRecv fab (s.peerNode.getD 0) h.plain.ctr).2 with
+      | true => rfl
+      | false => rw [hf] at hcheck; simp at hcheck
 
 /-- **The ephemeral group session is bound to (fabric, group id, source node)**: the session an
 accepted group message creates carries the fabric index and group id of the key that authenticated
@@ -1199,6 +1291,21 @@ theorem inauthentic_is_rejected {E : Env} {n : Node} {from_ : Addr} {dg : Bytes}
     obtain ⟨f, src, _, _, _, _, ha⟩ := group_accept_only_authentic hb hd
     exact hng _ _ _ ha
 
+/-- The per-session statement for the whole receive step, **stated, not proved** (the tie checks it
+on every delivery; proved are `handleRx_rejected` + `inauthentic_is_rejected` — datagrams authentic
+for nothing — and, for `decode_packet` alone, `inauthentic_preserves_session`): whatever a datagram
+causes in `handle_rx_packet` (ACK, `CloseSession`, removal of the session it *is* authentic for,
+a new session), a secure session for which it is not authentic is still in the table, unchanged —
+unless the table is full and the datagram is an authentic group message or an unsecured session
+request (the two cases in which the least recently used idle session is evicted). -/
+def C03_rx_full : Prop :=
+  ∀ (E : Env) (now x : Nat) (w : World) (from_ : Addr) (dg : Bytes) (r : Session),
+    BytesOK dg → r ∈ w.node → r.isEncrypted = true → ¬ AuthenticFor E.t r dg →
+    (w.node.length < MAX_SESSIONS ∨
+      ((∀ c h p, decodeStage E w.node from_ dg ≠ .groupNew c h p) ∧
+       (∀ h p, decodeStage E w.node from_ dg ≠ .newPlain h p))) →
+    r ∈ (handleRx E now x w from_ dg).2.node
+
 /-! ## Non-vacuity: concrete instances of every implication -/
 namespace Ex
 def a1 : Addr := .udp (.v6 1) 1001
@@ -1293,6 +1400,12 @@ example : (receive (gE (opKey 11 5) 50) 0 { node := [r], lru := [0] } a1 gdg).2 
 example : (receive (gE (opKey 9 5) 50) 0 {} a1 gdg).2.gstore ≠ ({} : World).gstore := by decide
 /-- a replayed group message from another address: `Duplicate` by the counter store, no second session -/
 example : (receive (gE (opKey 9 5) 50) 0 (receive (gE (opKey 9 5) 50) 0 {} a1 gdg).2 a9 gdg).1 = .err .Duplicate := by decide
+/-- ... and from the same address, where it is matched to the ephemeral session the first copy created:
+`Duplicate` as well (`group_data_on_session_checked`); re-addressed to group 8 through that session: refused -/
+example : (receive (gE (opKey 9 5) 50) 0 (receive (gE (opKey 9 5) 50) 0 {} a1 gdg).2 a1 gdg).1 = .err .Duplicate := by decide
+def gh8 : PacketHdr := { gh with plain := { gh.plain with dst := 8, ctr := 11 } }
+example : (receive { (gE (opKey 9 5) 50) with t := [mkRec (gs (opKey 9 5) 50) gh8 pay [1, 2]] } 0
+    (receive (gE (opKey 9 5) 50) 0 {} a1 gdg).2 a1 (gh8.plain.encode ++ [1, 2])).1 = .err .NoSession := by decide
 
 /-! ### the whole receive step -/
 /-- `handleRx_rejected`: a secured unicast datagram for which there is no session is answered by one
